@@ -219,6 +219,18 @@ def _store_array(
                 )
                 warn(warn_msg, stacklevel=2)
                 source = source.rechunk(target.shards)
+        if is_storage_array(target) and getattr(target, "shards", None) is None:
+            try:
+                target_chunks = target.chunks
+            except NotImplementedError:
+                target_chunks = None  # rectilinear chunk grids don't support .chunks
+            if target_chunks is not None and any(
+                nb > 1 and sc % tc != 0
+                for sc, tc, nb in zip(source.chunksize, target_chunks, source.numblocks)
+            ):
+                # each task writes one source chunk, so source chunks that don't line up
+                # with the target's chunks would make tasks share (and race on) a stored chunk
+                source = source.rechunk(target_chunks)
     if not is_storage_array(target):
         target = lazy_zarr_array(
             target,
